@@ -87,6 +87,35 @@ def r04_1(ctx):
                 ctx.check(key + " deterministic", len(set(observed)) == 1, "single outcome", f"{len(set(observed))} outcomes: {obs}", fn_where(idx, fi))
 
 
+@rule("R04.6", "C04", "the type rules are total over every integer type the compiler builds: whatever further flags the type carries (none at all for the C type `bool`, BOOL, CONST, HYBRID_LVAR), the result is the table entry for its sign and width", min_instances=20)
+def r04_6(ctx):
+    idx = get_index(ctx.env)
+    fc = idx.func("c11_cast")
+    fp = idx.func("promoted_type")
+    groups = [("no flag (C type bool)", ()), ("PURE", ("PURE",)), ("PURE|BOOL", ("PURE", "BOOL")), ("PURE|CONST", ("PURE", "CONST")), ("PURE|HYBRID_LVAR", ("PURE", "HYBRID_LVAR")), ("CONST", ("CONST",))]
+    for gname, g in groups:
+        for (sa, wa), (sb, wb) in (((False, 1), (True, 32)), ((True, 32), (False, 1)), ((False, 8), (False, 8)), ((True, 64), (False, 32))):
+            outs = Interp(idx).explore(lambda i: i.call_function(fc, [mk_vt("a", sa, wa, g), mk_vt("b", sb, wb, ("PURE",))]))
+            # table entry without promotion (c11_cast is the conversion step only)
+            if sa == sb:
+                e = (sa, max(wa, wb))
+            else:
+                (su, wu), (ss, ws) = ((sa, wa), (sb, wb)) if not sa else ((sb, wb), (sa, wa))
+                e = (False, wu) if wu >= ws else (True, ws)
+            got = set()
+            for o in outs:
+                if o.kind == "raise":
+                    got.add(f"RAISE {o.value}")
+                else:
+                    got.add(tuple((x.fields.get("_signed"), x.fields.get("_bit_width")) for x in o.value) if isinstance(o.value, (tuple, list)) else to_text(o.value))
+            ctx.check(f"c11_cast total [a: {gname} ({'s' if sa else 'u'},{wa}); b: ({'s' if sb else 'u'},{wb})]", got == {(e, e)}, str((e, e)), str(sorted(map(str, got))), fn_where(idx, fc))
+        for sa, wa in ((False, 1), (True, 8), (False, 32), (True, 64)):
+            outs = Interp(idx).explore(lambda i: i.call_function(fp, [mk_vt("a", sa, wa, g)]))
+            e = (True, 32) if wa < 32 else (sa, wa)
+            got = {("RAISE " + str(o.value)) if o.kind == "raise" else (o.value.fields.get("_signed"), o.value.fields.get("_bit_width")) for o in outs}
+            ctx.check(f"promoted_type total [{gname} ({'s' if sa else 'u'},{wa})]", got == {e}, str(e), str(sorted(map(str, got))), fn_where(idx, fp))
+
+
 @rule("R04.2", "C04", "c11_cast never stores to its arguments (ownership through aliases); results symmetric", min_instances=12)
 def r04_2(ctx):
     idx = get_index(ctx.env)
